@@ -143,12 +143,15 @@ impl Object for Font {
 }
 impl ObjectWrite for Font {
     fn to_primitive(&self, update: &mut impl Updater) -> Result<Primitive> {
-        let mut dict = match self.data {
+        let data = match self.data {
             FontData::CIDFontType0(ref d) | FontData::CIDFontType2(ref d) => d.to_dict(update)?,
             FontData::TrueType(ref d) | FontData::Type1(ref d) => d.to_dict(update)?,
             FontData::Type0(ref d) => d.to_dict(update)?,
             FontData::Other(ref dict) => dict.clone(),
         };
+        // keep the entries the typed part does not model; the typed entries take precedence
+        let mut dict = self._other.clone();
+        dict.append(data);
         
         if let Some(ref to_unicode) = self.to_unicode {
             dict.insert("ToUnicode", to_unicode.to_primitive(update)?);
